@@ -33,6 +33,19 @@ CHECKS = {
         floors={"any": {"programs": 200, "disagreements_checked": 5000}},
         assumptions=["the reference model (refmodel crate) is trusted; it is cross-checked against the evolution table in C03 and pinned by the Scala golden file in C04"],
     ),
+    "C03": dict(
+        claim="Held on N observed executions: for every generated legal history, every (writer, reader) version pair, four embeddings (struct, enum variant, between siblings of a v0 record, inside a chunk of an evolved record) and generated values, the library's result equals the documented outcome computed from the history alone (value, or the specific error variant and field name) and the consumption monitor finds nothing left unread where the data is framed. Two independent oracles (history table, strict reference decoder with the reader's schema) must agree with each other on every case, otherwise the run is inconclusive.",
+        note="Trusted: refmodel::evo::History::expected (the documented-outcome table) and the strict reference decoder; legal histories only (DESIGN §4.4); the embedded + stored-version-0 + removal combination is excluded (DESIGN §9-1).",
+        technique="history-level oracle + strict reference decoder over generated evolution histories x version pairs",
+        level="exploration",
+        quick=NATIVE,
+        thorough=NATIVE + [("fresh", 1.0)],
+        rule="histories are drawn by a seeded generator of legal evolution steps (FieldAdded / FieldMadeOptional / FieldRemoved / FieldMadeTransient, length 1-5); every prefix becomes a compiled Rust type in four embeddings; all (w, r) pairs x generated values of version w are written by w and read by r; non-trivial = w != r, distinct by (reader type, bytes); every outcome class must be observed at least 10 times",
+        floors={"any": {"outcome:as_written": 10, "outcome:wrapped": 10, "outcome:unwrapped": 10, "outcome:none_is_error": 10,
+                        "outcome:default_taken": 10, "outcome:removed_reads_none": 10, "outcome:removed_is_error": 10,
+                        "outcome:newer_data_skipped": 10, "outcome:dropped_field_ignored": 10, "histories": 30}},
+        assumptions=["legal histories only: chunk-0 field order never changes, a field is removed / made transient only while it is the last one serialized in its chunk, names are never reused"],
+    ),
     "C04": dict(
         claim='Held on N observed executions in both directions: library bytes == format (via strict reference decode + byte-identical re-encode), and reference encodings in every legal form choice decode to the value they denote.',
         note='Trusted: the reference model as transcription of the desert format (Appendix A of DESIGN.md); time/uuid/big-number layouts frozen as found.',
